@@ -216,7 +216,13 @@ def targets(res, tier, decls):
 def forms_and_off(res, tier, decls):
     """#[test] form below offset_of (1.77), const form at/above; --no-layout-tests removes only assertions."""
     w = C.workdir("c06-forms")
-    sub = decls[:: max(1, len(decls) // 150)]
+    # every attribute class is represented (a stride over the list can miss a whole class, e.g. member-level aligned(N))
+    from checks.c02 import attr_class
+    by = {}
+    for d in decls:
+        by.setdefault((d["kind"], attr_class(d)), []).append(d)
+    per = max(4, 150 // max(1, len(by)))
+    sub = [d for k in sorted(by) for d in by[k][:: max(1, len(by[k]) // per)][:per]]
     names = ["S%05d" % i for i in range(len(sub))]
     hp = os.path.join(w, "decls.h")
     with open(hp, "w") as f:
